@@ -98,10 +98,11 @@ def grid_one(run, dim, height, periodic, order):
     return name, ncell, summary, viol, (res.lines[len(res.lines) // 2] if res.lines else None)
 
 
-def grid_deep(run, dim, level, periodic, nshards_pick):
+def grid_deep(run, dim, level, periodic, nshards_pick, variant="plain", order="morton"):
     """Deep cells (indices up to 62 bits): TLC computes parents / neighbours / interaction lists on limb-wise coordinates (GridDeep.tla)."""
-    name = "griddeep%s-d%d-l%d" % ("-per" if periodic else "", dim, level)
-    binp = need(build("conf_grid_morton_%d_%d" % (dim, int(periodic)), "conf_grid.cpp", ["DIMV=%d" % dim, "PERIODICV=%d" % int(periodic), "ORDERV=0"]), run)
+    name = "griddeep%s%s-d%d-l%d%s" % ("-hilbert" if order != "morton" else "", "-per" if periodic else "", dim, level, "-asan" if variant == "asan" else "")
+    binp = need(build("conf_grid_%s_%d_%d%s" % (order, dim, int(periodic), "_asan" if variant == "asan" else ""), "conf_grid.cpp",
+                      ["DIMV=%d" % dim, "PERIODICV=%d" % int(periodic), "ORDERV=%d" % (0 if order == "morton" else 1)], variant=variant), run)
     c = cfg("Spec", dict(Dim=dim, Level=level, Periodic=periodic, LimbBits=15, Shard=0, NbShards=nshards_pick), ["ArithmeticOK", "ILOffsetRule", "Emit"])
     res = run_tlc("GridDeep", c, workers=1, timeout=900, tag=name)
     run.add_tlc(name, res, note="GridDeep.tla: sampled deep cells (limbs all 0 / all 1 / around carries), dimension %d level %d (index of %d bits)" % (dim, level, dim * level))
@@ -128,7 +129,12 @@ def grid_deep(run, dim, level, periodic, nshards_pick):
     rc, out, err = run_bin(binp, ["deep", level + 1], stdin_text="\n".join(recs) + "\n", timeout=300)
     mism, summary = parse_harness_output(out)
     if summary is None:
-        run.violation("Crash:" + name, "conf_grid deep did not finish (exit %s): hang or fault on deep indices: %s" % (rc, (err or out)[-200:]), run.write_replay("Crash-" + name, {"kind": "griddeep", "dim": dim, "level": level, "periodic": periodic, "shards": nshards_pick}))
+        if rc in (98, 99) or "runtime error" in err or "Sanitizer" in err:
+            first = [l for l in err.splitlines() if "runtime error" in l or "ERROR: AddressSanitizer" in l or "SUMMARY" in l]
+            run.violation("Sanitizer:" + name, "sanitizer report on deep indices: " + " | ".join(first[:2])[:400],
+                          run.write_replay("Sanitizer-" + name, {"kind": "griddeep", "dim": dim, "level": level, "periodic": periodic, "shards": nshards_pick, "variant": variant, "order": order}))
+            return
+        run.violation("Crash:" + name, "conf_grid deep did not finish (exit %s): hang or fault on deep indices: %s" % (rc, (err or out)[-200:]), run.write_replay("Crash-" + name, {"kind": "griddeep", "dim": dim, "level": level, "periodic": periodic, "shards": nshards_pick, "variant": variant, "order": order}))
         return
     run.add_harness(name, summary, rc)
     run.coverage["traces_validated_against_impl"] += len(recs)
@@ -176,6 +182,10 @@ def check_c11(run):
                 (1, 45, True, 1), (1, 62, True, 1), (2, 31, True, 1), (3, 20, True, 8), (4, 15, True, 1)]
     with ThreadPoolExecutor(max_workers=4) as ex:
         list(ex.map(lambda d: grid_deep(run, *d), deep))
+    # the Hilbert ordering at deep levels, in coordinate space (round trip and lists; nothing that involves parent / child, known finding F06)
+    hdeep = [(3, 11, False, 64), (3, 12, False, 64), (3, 16, False, 64)] if run.tier == "quick" else [(3, 11, False, 8), (3, 12, False, 8), (3, 14, False, 8), (3, 16, False, 8), (3, 18, False, 8), (3, 20, False, 8)]
+    with ThreadPoolExecutor(max_workers=3) as ex:
+        list(ex.map(lambda d: grid_deep(run, *d, order="hilbert"), hdeep))
     run.coverage["rule"] = ("every cell of every level of each (dimension, height, periodicity, ordering) grid is one case; "
                             "TLC evaluates the Grid axioms on it and prints its parent, child code, interaction and neighbour lists with codes; "
                             "conf_grid compares the library's per-cell and per-group builders (self-inclusion and upper-half filters on and off) with them; "
@@ -975,7 +985,10 @@ def taskexec_stage(run):
             cur, tasks = None, []
             graphs = {}
             for line in open(gall):
-                r = json.loads(line)
+                try:
+                    r = json.loads(line)
+                except ValueError:
+                    continue        # a run that crashed (reported as Crash) leaves a truncated line behind
                 if r["e"] == "Graph":
                     cur = re.sub(r"-v\d+$", "", r["key"]); graphs.setdefault(cur, [])
                 elif r["e"] == "Task" and cur is not None and len(graphs[cur]) < r["t"]:
@@ -1366,6 +1379,10 @@ def check_c15(run):
     for name, consts in omp_configs("quick")[:: (2 if small else 1)]:
         pairs, mism, _ = omp_campaign(run, "C15-omp-" + name, consts, "quick", variant="asan", graphs=0, limit=80 if small else 500)
         report_mismatches(run, "C15", "C15-omp-" + name, pairs, [(k, re.sub(r"-(immediate|deferred|tlc)-.*$", "", key), "%s [%s]" % (t, key)) for k, key, t in mism], ["Sanitizer", "Crash"])
+    # deep trees (indices of 40-62 bits): index arithmetic, level-dependent shifts and powers on the sanitizer build (GridDeep.tla's sampled cells)
+    with ThreadPoolExecutor(max_workers=3) as ex:
+        list(ex.map(lambda d: grid_deep(run, *d, variant="asan"), [(1, 40, False, 1), (1, 62, False, 1), (2, 30, False, 2), (3, 20, False, 64), (1, 45, True, 1)] if small else
+                    [(1, 40, False, 1), (1, 62, False, 1), (1, 33, False, 1), (2, 30, False, 1), (2, 31, False, 1), (3, 20, False, 8), (4, 15, False, 1), (1, 45, True, 1), (2, 31, True, 1), (3, 20, True, 8)]))
     # sessions on large random and on dense trees (full interaction lists: the wrappers' stack arrays are filled to capacity) recorded on the sanitizer build,
     # with look-ups, staged executes, moves and rebuild; the traces are validated by TLC as in C01
     trace_campaign(run, "C15", run.tier, modes=(0, 1), events=7, variant="asan")
